@@ -14,6 +14,7 @@ Oracle: pbt.models.updater (NumPy float64 formulas from the docstrings of functi
 
 from __future__ import annotations
 
+import functools
 import math
 
 import numpy as np
@@ -110,7 +111,7 @@ class Driver:
         self.stats = dict.fromkeys(
             ["applied", "applied_nonempty", "multi", "both", "bounded", "noop", "noop_after_clear",
              "range_elems", "range_atcap", "range_atlimit", "sharp_elems", "mixed_shapes",
-             "custom_used", "amb", "peeks", "skipped_dirty", "stale"], 0)
+             "custom_used", "amb", "peeks", "reduction_over_cache"], 0)
         self.classes = set()
         red = case.get("ctor_reduction")
         init = case["init"]
@@ -142,8 +143,6 @@ class Driver:
         self.last = {n: self._raw(n).detach().clone() for n in self.names}
         # (name, side) -> a reduction has been evaluated (and cached) over the current parts
         self.cached = {(n, s): False for n in self.names for s in "pn"}
-        # (name, side) -> the reduction was changed while a cached reduction over the current parts existed
-        self.stale = {(n, s): False for n in self.names for s in "pn"}
         self.dead = False  # a parameter left the finite / moderate regime: stop interpreting
 
     # -- helpers
@@ -194,9 +193,9 @@ class Driver:
         m = self.models[name]
         m.add(None if pos is None else pos.astype(np.float64), None if neg is None else neg.astype(np.float64))
         if pos is not None:
-            self.cached[(name, "p")] = self.stale[(name, "p")] = False
+            self.cached[(name, "p")] = False
         if neg is not None:
-            self.cached[(name, "n")] = self.stale[(name, "n")] = False
+            self.cached[(name, "n")] = False
 
     def clear(self, how, name, what):
         with impl(what):
@@ -214,24 +213,17 @@ class Driver:
     def _model_clear(self, n):
         self.models[n].clear()
         self.cached[(n, "p")] = self.cached[(n, "n")] = False
-        self.stale[(n, "p")] = self.stale[(n, "n")] = False
-
-    def dirty(self, name):
-        m = self.models[name]
-        return (self.cached[(name, "p")] and bool(m.pos)) or (self.cached[(name, "n")] and bool(m.neg))
 
     def set_reduction(self, name, red, what):
-        if self.dirty(name):
-            if not self.case.get("allow_stale"):
-                self.stats["skipped_dirty"] += 1
-                return
-            m = self.models[name]
-            self.stale[(name, "p")] = self.cached[(name, "p")] and bool(m.pos)
-            self.stale[(name, "n")] = self.cached[(name, "n")] and bool(m.neg)
-            self.stats["stale"] += 1
+        # also generated while a cached reduction over pending parts exists: the new reduction
+        # must be the one applied (fixed defect: replay/C10/fixed-stale-reduction-cache.json)
+        m = self.models[name]
+        if (self.cached[(name, "p")] and m.pos) or (self.cached[(name, "n")] and m.neg):
+            self.stats["reduction_over_cache"] += 1
         with impl(what):
             getattr(self.updater, name).reduction(self._redfn(red))
-        self.models[name].set_reduction(red)
+        m.set_reduction(red)
+        self.cached[(name, "p")] = self.cached[(name, "n")] = False
 
     def set_half(self, side, name, cfg, what):
         import inferno.functional as F
@@ -275,7 +267,7 @@ class Driver:
             gu = acc.update(self._raw(name))
         rp, rn = m.reduced()
         for side, got, want, parts in (("p", gp, rp, m.pos), ("n", gn, rn, m.neg)):
-            kind = ("stale-reduction" if self.stale[(name, side)] else "peek") + ":reduced"
+            kind = "peek:reduced"
             if want is None:
                 check(got is None, kind, lambda: f"{what}: '{name}' {side}: expected None, got a tensor")
                 continue
@@ -328,7 +320,7 @@ class Driver:
                           f"{old.tolist()} -> {self._np(cur).tolist()}")
             self.stats["noop"] += 1
             return
-        pfx = "stale-reduction" if (self.stale[(n, "p")] or self.stale[(n, "n")]) else "update"
+        pfx = "update"
         got = self._np(cur)
         check(got.shape == old.shape, pfx + ":shape", lambda: f"{what}: '{n}' shape {old.shape} -> {got.shape}")
         check(cur.dtype == DT[self.dtype], pfx + ":dtype", lambda: f"{what}: '{n}' dtype became {cur.dtype}")
@@ -491,7 +483,7 @@ def _outcome(d: Driver, extra_cls=(), nt=None):
     s = d.stats
     cls = [f"target={d.case['target']}", f"dtype={d.dtype}", f"ctor_red={d.case.get('ctor_reduction')}"]
     for k in ("multi", "both", "bounded", "noop", "noop_after_clear", "range_elems", "range_atcap",
-              "range_atlimit", "sharp_elems", "mixed_shapes", "custom_used", "skipped_dirty", "stale"):
+              "range_atlimit", "sharp_elems", "mixed_shapes", "custom_used", "reduction_over_cache"):
         if s[k]:
             cls.append(k)
     if d.dead:
@@ -746,6 +738,7 @@ _optpart = st.one_of(st.none(), _part_s, _part_s, _part_s)
 _clearflag = st.sampled_from([None, None, True, False])
 
 
+@functools.lru_cache(maxsize=None)
 def _ops(pidx=None):
     """Strategies for the single operations; ``pidx`` pins the parameter index."""
     lim = st.sampled_from(LIMITS)
@@ -817,13 +810,11 @@ def algebra_case(draw, tier="quick", perm=False):
     case = {"target": target, "dtype": dtype, "shapes": shapes, "init": init,
             "ctor_reduction": draw(st.sampled_from([None, None, "mean", "amax", "custom", "sum"])),
             "delay": target == "dense" and draw(st.booleans()),
-            "allow_stale": draw(st.integers(0, 24)) == 0,
             "second_update": draw(st.integers(0, 3)) > 0,
             "ops": ops}
     if perm:
         case["perm"] = draw(st.lists(st.integers(0, 5), min_size=1, max_size=8))
         case["second_update"] = False
-        case["allow_stale"] = False
     return case
 
 
@@ -853,7 +844,7 @@ def _range_base(draw):
         [draw(st.sampled_from([[2, 3], [2, 2], [1, 2]]))]
     return {"target": target, "dtype": draw(st.sampled_from(["float32", "float32", "float64"])),
             "shapes": shapes, "init": [[0.0]], "ctor_reduction": None, "delay": False,
-            "allow_stale": False, "cfg": draw(range_cfg())}
+            "cfg": draw(range_cfg())}
 
 
 _rawpart = st.tuples(_raw, st.lists(st.sampled_from([0.0, 1.0, 1.0, 0.5, 0.25, 0.75, 0.1, 0.9]), min_size=1, max_size=6)).map(list)
@@ -887,19 +878,19 @@ def range_traj_case(draw, tier="quick"):
 LEGS = [
     Leg(
         name="algebra", run=run_algebra, strategy=lambda tier: algebra_case(tier),
-        quick=250, thorough=2500, quick_shards=5, thorough_shards=6, nt_floor=0.2,
+        quick=600, thorough=6000, quick_shards=5, thorough_shards=6, nt_floor=0.2,
         rule="operation sequence with >= 2 applied non-empty updates, >= 1 of them reducing >= 2 parts on one "
              "side, >= 1 with both sides present and >= 1 under a configured bound; distinct by SHA-1 of the case",
     ),
     Leg(
         name="perm", run=run_perm, strategy=lambda tier: algebra_case(tier, perm=True),
-        quick=200, thorough=1500, quick_shards=3, thorough_shards=3, nt_floor=0.2,
+        quick=400, thorough=4000, quick_shards=3, thorough_shards=3, nt_floor=0.2,
         rule="twin runs whose contribution order actually differs, with >= 1 applied update reducing >= 2 parts "
              "on one side, compared after every applied update",
     ),
     Leg(
         name="range_traj", run=run_range_traj, strategy=lambda tier: range_traj_case(tier),
-        quick=60, thorough=500, quick_shards=4, thorough_shards=4, nt_floor=0.3,
+        quick=60, thorough=600, quick_shards=4, thorough_shards=4, nt_floor=0.3,
         rule="update history (2..200 updates, parts from a drawn PCG64 seed, reduced magnitudes <= cap by construction) "
              "from an in-range start under multiplicative / scaled multiplicative / scaled power (order >= 1) / sharp "
              "dependence with >= 2 non-empty updates, >= 1 moving a parameter, and >= 1 element for which the "
@@ -907,7 +898,7 @@ LEGS = [
     ),
     Leg(
         name="range_step", run=run_range_step, strategy=lambda tier: range_step_case(tier),
-        quick=500, thorough=6000, quick_shards=4, thorough_shards=3, nt_floor=0.3,
+        quick=800, thorough=10000, quick_shards=4, thorough_shards=3, nt_floor=0.3,
         rule="one update from a generated state (exactly on / one ulp inside the limits, interior; for sharp also "
              "outside) with element-wise drawn parts scaled to reduced magnitude <= cap (incl. exactly cap): >= 1 "
              "element for which the range (or sharp) premise held",
@@ -921,7 +912,5 @@ ASSUMPTIONS = [
     "powers near a zero base and the sharp discontinuity)",
     "Theta(0) = 0 for sharp dependence, as the property statement ('never moves a parameter further beyond a limit "
     "it has reached') and torch.heaviside(x, 0) have it; the docstring prints Theta(0) = 1",
-    "reduction changes are only generated while no cached reduction over pending parts exists "
-    "(known finding C10-stale-reduction-cache) except in cases flagged allow_stale",
     "parameters whose magnitude exceeds 1e6 or that became NaN (legitimate under unscaled power dependence) end the case",
 ]
